@@ -132,7 +132,15 @@ def apply_rewrite(kind, st, case, rng, scratch):
         if len(set(ren.values())) != len(ren) or set(ren.values()) & set(cur):
             raise Skip
         q = p.copy() if st.base else p  # products of earlier rewrites (e.g. an unpickled pipeline) are updated in place
-        q.update_renames(ren, update_from="current")
+        if rng.random() < 0.3:
+            # the same rename applied member by member (p[name].update_renames): the pipeline must follow its functions
+            for f in list(q.functions):
+                mine = set(f.parameters) | set(f.output_name if isinstance(f.output_name, tuple) else (f.output_name,))
+                sub = {k_: v_ for k_, v_ in ren.items() if k_ in mine}
+                if sub:
+                    f.update_renames(sub, update_from="current")
+        else:
+            q.update_renames(ren, update_from="current")
         return State(q, {o: ren.get(c, c) for o, c in st.names.items()}, list(st.outs), st.conv, st.scope, st.nested)
     if kind == "rename-swap":
         # permute the names of two root parameters that meet in one function (each new name is the other's current name)
@@ -151,8 +159,17 @@ def apply_rewrite(kind, st, case, rng, scratch):
     if kind in ("scope", "scope-nested"):
         if st.scope is not None:
             raise Skip
-        q = p.copy() if st.base else p
-        q.update_scope("sc", "*", "*")
+        how = rng.choice(["pipeline", "pipeline", "constructor", "members"])
+        if how == "constructor":
+            # Pipeline(functions, scope=...) is documented as the same as update_scope(scope, "*", "*") afterwards
+            q = Pipeline([f.copy() for f in p.functions], scope="sc")
+        elif how == "members":
+            q = p.copy() if st.base else p
+            for f in q.functions:   # the same rewrite applied through the member functions
+                f.update_scope("sc", "*", "*")
+        else:
+            q = p.copy() if st.base else p
+            q.update_scope("sc", "*", "*")
         present = {n for f in q.functions for n in list(f.parameters) + list(f.output_name if isinstance(f.output_name, tuple) else (f.output_name,))}
         return State(q, {o: (f"sc.{c}" if f"sc.{c}" in present or c not in present else c) for o, c in st.names.items()}, list(st.outs),
                      "nested" if kind == "scope-nested" else "flat", "sc", st.nested)
